@@ -45,6 +45,7 @@ func (s *Skiplist) NewIterator2(cmp CompareFn,
 
 // SeekFirst moves cursor to the start
 func (it *Iterator) SeekFirst() {
+	it.deleted = false
 	it.prev = it.s.head
 	it.curr, _ = it.s.head.getNext(0)
 	it.valid = true
@@ -67,6 +68,7 @@ func (it *Iterator) SeekWithCmp(itm unsafe.Pointer, cmp CompareFn, eqCmp Compare
 
 // Seek moves iterator to a provided item
 func (it *Iterator) Seek(itm unsafe.Pointer) bool {
+	it.deleted = false
 	it.valid = true
 	found := it.s.findPath(itm, it.cmp, it.buf, &it.s.Stats) != nil
 	it.prev = it.buf.preds[0]
